@@ -65,14 +65,38 @@ CLIENT_RULE = ('scripts of Client API calls (Subscribe, Unsubscribe, Publish QoS
 CLIENT_ASSUME = ['Client/Model.v is a hand-written model of the client role tied to the code by running the same scripts (clientdrv); TCP loopback, '
                  'goroutine scheduling and timers are not modelled']
 
+def _storm(pid, mode, n_quick, n_thorough, race=False, extra=''):
+    d = dict(name='stormdrv', oracle_filter=r'(^%s:%s)' % (pid, extra), model=False,
+             env=dict(quick=dict(VERIF_STORM_MODE=mode, VERIF_STORM_N=str(n_quick)),
+                      thorough=dict(VERIF_STORM_MODE=mode, VERIF_STORM_N=str(n_thorough))))
+    if race:
+        d.update(bin='stormdrv_race', build_flags=['-race'], race=True)
+    return d
+
+STORM_RULE = ('concurrent workloads on a real broker over net.Pipe (stormdrv): storms of 3-5 publishers delivering 40-80 messages of 16 B - 31 KB '
+              'each to 2-3 shared subscribers (outgoing rings wrap mid-packet), a subscriber cut off mid-delivery, teardown scenarios '
+              '(causes of end x buffer conditions x orders) with a bystander pair, keep-alive scenarios with K = 1 s; checked against '
+              'stream / order / liveness oracles. Each scenario run counts as one evaluation.')
+
 PROPS = {
+    'C16': dict(coq='Properties/C16.v', drivers=[_storm('C16', 'teardown,storm,cut', 3, 40)], rule=STORM_RULE,
+                assumptions=['Life/ConnLife.v is an abstract blocking model of one connection (not run against the code): sockets, scheduler and '
+                             'timers assumed; the ring interface is what C15 proves; the order of teardown actions comes from T1']),
+    'C17': dict(coq='Properties/C17.v', drivers=[_storm('C17', 'storm,cut', 3, 60), _broker('C17', 60, 1500)], rule=STORM_RULE,
+                assumptions=['Ring/Writers.v models writers over the byte-granular ring; mutual exclusion of sync.Mutex assumed; wmu region and '
+                             'ring roles come from T1']),
+    'C18': dict(coq='Properties/C18.v', drivers=[_storm('C18', 'storm,cut,teardown,churn', 2, 25, race=True)], rule=STORM_RULE + ' Run under the Go race detector.',
+                assumptions=['the map from shared-object classes to guarding mutexes, the exempt and helper function lists are hand-written; '
+                             'aliasing is covered only through that map; the dynamic side is a detector (go build -race), not a proof']),
+    'C19': dict(coq='Properties/C19.v', drivers=[_storm('C19', 'keepalive', 1, 3), _broker('C19', 40, 300)], rule=STORM_RULE,
+                assumptions=['Life/KeepAlive.v models the deadline arithmetic only; OS timers, the scheduler and net.Pipe deadlines are not modelled']),
     'C20': dict(coq='Properties/C20.v', drivers=[_client('C20', '|^STUCK')], rule=CLIENT_RULE, assumptions=CLIENT_ASSUME),
     'C12': dict(coq='Properties/C12.v', drivers=[_client('C12'), _broker('C12', 120, 2500)], rule=CLIENT_RULE + ' Plus the broker histories (identifiers of forwarded PUBLISH packets, PUBREL answers).', assumptions=CLIENT_ASSUME + BROKER_ASSUME),
-    'C01': dict(coq='Properties/C01.v', drivers=[_broker('C01', 120, 2500)], rule=BROKER_RULE, assumptions=BROKER_ASSUME),
+    'C01': dict(coq='Properties/C01.v', drivers=[_broker('C01', 120, 2500), _storm('C01', 'storm', 1, 30)], rule=BROKER_RULE, assumptions=BROKER_ASSUME),
     'C02': dict(coq='Properties/C02.v', drivers=[_broker('C02', 120, 2500)], rule=BROKER_RULE, assumptions=BROKER_ASSUME),
-    'C05': dict(coq='Properties/C05.v', drivers=[_broker('C05', 120, 2500)], rule=BROKER_RULE, assumptions=BROKER_ASSUME),
+    'C05': dict(coq='Properties/C05.v', drivers=[_broker('C05', 120, 2500), _storm('C05', 'cut,teardown', 2, 40)], rule=BROKER_RULE, assumptions=BROKER_ASSUME),
     'C07': dict(coq='Properties/C07.v', drivers=[_broker('C07', 120, 2500)], rule=BROKER_RULE, assumptions=BROKER_ASSUME),
-    'C08': dict(coq='Properties/C08.v', drivers=[_broker('C08', 120, 2500)], rule=BROKER_RULE, assumptions=BROKER_ASSUME),
+    'C08': dict(coq='Properties/C08.v', drivers=[_broker('C08', 120, 2500), _storm('C08', 'churn', 2, 30)], rule=BROKER_RULE, assumptions=BROKER_ASSUME),
     'C09': dict(coq='Properties/C09.v', drivers=[_broker('C09', 120, 2500)], rule=BROKER_RULE, assumptions=BROKER_ASSUME),
     'C10': dict(coq='Properties/C10.v', drivers=[_broker('C10', 120, 2500)], rule=BROKER_RULE, assumptions=BROKER_ASSUME),
     'C11': dict(coq='Properties/C11.v', drivers=[_broker('C11', 120, 2500)], rule=BROKER_RULE, assumptions=BROKER_ASSUME),
